@@ -134,6 +134,32 @@ def c18_2(ctx):
         pre = [x for x in w.effects if x.kind == "setitem" and norm(x.target) == "self._cache" and norm(x.key) == keyp and isinstance(x.value, ast.Constant) and x.value.value is None]
         ok = bool(pre) and w.effects.index(pre[0]) < w.effects.index(e) and sym.entails(e.reach, pre[0].reach)
         ctx.check(ok, "cache-none-first", ctx.where(f), "parseable_str.cache does not record None before running the decoder")
+    # only parseable_str itself fills its cache: the string object (and with it the cache) is shared between networks, so an entry
+    # written from outside -- a parsed Contract, a key object: the answer of ONE network -- is found by every other network
+    n_sites = 0
+    for m_ in ctx.p.modules.values():
+        if "._cache" not in m_.source:
+            continue
+        for q_, g_ in ctx.p.functions.items():
+            if g_.module is not m_ or isinstance(g_.node, ast.Lambda):
+                continue
+            own = g_.cls is not None and g_.cls.name == "parseable_str"
+            for n_ in ast.walk(g_.node):
+                recv = None
+                if isinstance(n_, ast.Subscript) and isinstance(n_.ctx, (ast.Store, ast.Del)) and isinstance(n_.value, ast.Attribute) and n_.value.attr == "_cache":
+                    recv = n_.value.value
+                elif isinstance(n_, ast.Call) and isinstance(n_.func, ast.Attribute) and n_.func.attr in ("setdefault", "update", "pop", "clear", "__setitem__") and isinstance(n_.func.value, ast.Attribute) and n_.func.value.attr == "_cache":
+                    recv = n_.func.value.value
+                if recv is None:
+                    continue
+                n_sites += 1
+                if own and norm(recv) == "self":
+                    continue
+                if g_.cls is not None and norm(recv) == "self" and g_.cls.name != "parseable_str":
+                    continue            # another class's own _cache attribute
+                ctx.bad("cache-written-from-outside:%s" % q_.split(".", 2)[-1], "%s:%d" % (m_.relpath, n_.lineno),
+                        "%s writes `%s` into the cache of a parseable_str: the object is shared between networks (and its cache with it), so what one network's parser stores there every other network's parser finds" % (q_, norm(n_)[:60]))
+    ctx.ok("cache-owner", sample={"rule": "only parseable_str methods write parseable_str._cache", "write_sites_seen": n_sites}, nontrivial=False)
     # cache keys identify the decoding function uniquely (one string object is shared between networks)
     keys = {}
     for m, n, key, fn in cache_calls(ctx):
